@@ -820,6 +820,154 @@ theorem quicView_no_udp (o : Opts) (xs : List (Item Keylog.Key)) (h : ∀ p, Ite
       obtain ⟨rfl, hu⟩ := Lemmas.Export.classify_quic o it q b0 r hc
       exact absurd hu (h q (by simp))
 
+variable (info : Nat → Pipeline.Info)
+
+/-- TLS part: the same frames (up to tags) and key logs that every TLS session reads alike, secrets blocks anywhere -/
+theorem tlsFrames_blocks_anywhere (o : Opts) (c : Bool) (fk₁ fk₂ : Option (List Keylog.Key))
+    (its₁ its₂ : List Container.Item) (hpk : its₁.filter isPkt = its₂.filter isPkt)
+    (hnm₁ : ∀ t b, Container.Item.pkt t b ∈ its₁ → isMinusOne t = false)
+    (hnm₂ : ∀ t b, Container.Item.pkt t b ∈ its₂ → isMinusOne t = false)
+    (X₁ X₂ : List (Item Keylog.Key)) (IS₁ IS₂ : List (Nat × Pipeline.Info))
+    (h₁ : go srcHexClass c 0 its₁ = .ok (X₁, IS₁)) (h₂ : go srcHexClass c 0 its₂ = .ok (X₂, IS₂))
+    (hv : SameSecrets (fk₁.getD [] ++ blockKeys its₁) (fk₂.getD [] ++ blockKeys its₂)) :
+    tlsFrames H P (lookup IS₁) o fk₁ X₁ = tlsFrames H P (lookup IS₂) o fk₂ X₂ := by
+  obtain ⟨Xp, ISp, gp, z₁⟩ := go_filter c isPkt its₁ 0 0 X₁ IS₁ h₁
+  obtain ⟨Xp', ISp', gp', z₂⟩ := go_filter c isPkt its₂ 0 0 X₂ IS₂ h₂
+  rw [← hpk, gp] at gp'
+  simp only [Except.ok.injEq, Prod.mk.injEq] at gp'
+  obtain ⟨rfl, rfl⟩ := gp'
+  obtain ⟨a1, a2, a3⟩ := go_split c its₁ hnm₁ 0 X₁ IS₁ h₁
+  obtain ⟨b1, b2, b3⟩ := go_split c its₂ hnm₂ 0 X₂ IS₂ h₂
+  -- the packets of either capture alone, with the capture's whole key log as an `-s` file
+  have s₁ : tlsFrames H P (lookup IS₁) o fk₁ X₁ =
+      tlsFrames H P (lookup IS₁) o (some (fk₁.getD [] ++ blockKeys its₁)) (keptOf isPkt its₁ X₁) :=
+    dsb_position_irrelevant_tls H P _ o _ _ _ _ a1.symm (by
+      intro cr; simp only [keysOf, a2, a3, Option.getD_some, List.append_nil])
+  have s₂ : tlsFrames H P (lookup IS₂) o fk₂ X₂ =
+      tlsFrames H P (lookup IS₂) o (some (fk₂.getD [] ++ blockKeys its₂)) (keptOf isPkt its₂ X₂) :=
+    dsb_position_irrelevant_tls H P _ o _ _ _ _ b1.symm (by
+      intro cr; simp only [keysOf, b2, b3, Option.getD_some, List.append_nil])
+  rw [s₁, s₂, tlsFrames_alike H P _ _ o _ z₁, tlsFrames_alike H P _ _ o _ z₂]
+  exact dsb_position_irrelevant_tls H P _ o _ _ _ _ rfl (by
+    simp only [keysOf, Option.getD_some]; exact sameSecrets_append hv _)
+
+/-- **C09, whole program, TLS-only captures: secrets blocks ANYWHERE.** Two capture files with the same packet blocks in
+    the same order (`hpk`) and any numbers of ASCII secrets blocks anywhere between them — in front, behind, in between,
+    none at all —, `-s` files or none; no UDP frame in the capture (`hudp`: nothing goes to the QUIC half, which reads the
+    key log when the datagram arrives) and no packet taken for a secrets block (`hnm`). If every TLS session reads the
+    two key logs alike (`SameSecrets`: `-s` file, then the blocks in capture order), the outcomes are THE SAME:
+    byte-identical output files, or the same abort. -/
+theorem export_key_delivery_files_tls (args : Args) (legacy₁ legacy₂ : Bool) (file₁ file₂ : Option Str)
+    (cap₁ cap₂ : Bytes) (its₁ its₂ : List Container.Item) (ended : Option Container.Err)
+    (hr₁ : Container.readPrefix legacy₁ cap₁ = .ok (its₁, ended))
+    (hr₂ : Container.readPrefix legacy₂ cap₂ = .ok (its₂, ended))
+    (hpk : its₁.filter isPkt = its₂.filter isPkt)
+    (ha₁ : ∀ s, Container.Item.dsb s ∈ its₁ → s.all (· < 0x80) = true)
+    (ha₂ : ∀ s, Container.Item.dsb s ∈ its₂ → s.all (· < 0x80) = true)
+    (hnm : ∀ t b, Container.Item.pkt t b ∈ its₁ → isMinusOne t = false)
+    (hudp : ∀ X IS, go srcHexClass args.checksumTest 0 its₁ = .ok (X, IS) → ∀ p, Item.frame p ∈ X → p.l4 ≠ .udp)
+    (hv : SameSecrets ((fileKeysOf file₁).getD [] ++ blockKeys its₁) ((fileKeysOf file₂).getD [] ++ blockKeys its₂)) :
+    exportFile mask H P args legacy₁ file₁ cap₁ = exportFile mask H P args legacy₂ file₂ cap₂ := by
+  have hnm₂ : ∀ t b, Container.Item.pkt t b ∈ its₂ → isMinusOne t = false := by
+    intro t b hb
+    have : Container.Item.pkt t b ∈ its₂.filter isPkt := List.mem_filter.mpr ⟨hb, rfl⟩
+    rw [← hpk] at this
+    exact hnm t b (List.mem_filter.mp this).1
+  have hdrop : ∀ (its : List Container.Item), (∀ s, Container.Item.dsb s ∈ its → s.all (· < 0x80) = true) →
+      ∀ it ∈ its, isPkt it = false → ∃ s, it = .dsb s ∧ s.all (· < 0x80) = true := by
+    intro its ha it hit hk
+    cases it with
+    | dsb s => exact ⟨s, rfl, ha s hit⟩
+    | pkt t b => cases hk
+  rw [exportFile_stages, exportFile_stages]
+  split
+  · rfl
+  · unfold Ingest.itemsWith
+    rw [hr₁, hr₂]
+    simp only
+    cases h₁ : go srcHexClass args.checksumTest 0 its₁ with
+    | error e =>
+      have ep := go_filter_error args.checksumTest isPkt its₁ (hdrop its₁ ha₁) 0 0 e h₁
+      cases h₂ : go srcHexClass args.checksumTest 0 its₂ with
+      | error e₂ =>
+        have ep₂ := go_filter_error args.checksumTest isPkt its₂ (hdrop its₂ ha₂) 0 0 e₂ h₂
+        rw [← hpk, ep] at ep₂
+        cases ep₂; rfl
+      | ok w =>
+        obtain ⟨X₂, IS₂⟩ := w
+        obtain ⟨Xp, ISp, gp, _⟩ := go_filter args.checksumTest isPkt its₂ 0 0 X₂ IS₂ h₂
+        rw [← hpk, ep] at gp; cases gp
+    | ok w =>
+      obtain ⟨X₁, IS₁⟩ := w
+      cases h₂ : go srcHexClass args.checksumTest 0 its₂ with
+      | error e₂ =>
+        have ep₂ := go_filter_error args.checksumTest isPkt its₂ (hdrop its₂ ha₂) 0 0 e₂ h₂
+        obtain ⟨Xp, ISp, gp, _⟩ := go_filter args.checksumTest isPkt its₁ 0 0 X₁ IS₁ h₁
+        rw [hpk, ep₂] at gp; cases gp
+      | ok w₂ =>
+        obtain ⟨X₂, IS₂⟩ := w₂
+        simp only
+        cases ended with
+        | some e => rfl
+        | none =>
+          simp only
+          congr 1
+          cases ho : optsOf args with
+          | none =>
+            obtain ⟨e, he⟩ := framesFrom_bad mask H P freshState args ho
+            rw [he, he]
+          | some o =>
+            have hu₁ := hudp X₁ IS₁ h₁
+            -- the frames of the second capture are those of the first up to their tags: no UDP there either
+            have hu₂ : ∀ p, Item.frame p ∈ X₂ → p.l4 ≠ .udp := by
+              obtain ⟨Xp, ISp, gp, z₁⟩ := go_filter args.checksumTest isPkt its₁ 0 0 X₁ IS₁ h₁
+              obtain ⟨Xp', ISp', gp', z₂⟩ := go_filter args.checksumTest isPkt its₂ 0 0 X₂ IS₂ h₂
+              rw [← hpk, gp] at gp'
+              simp only [Except.ok.injEq, Prod.mk.injEq] at gp'
+              obtain ⟨rfl, rfl⟩ := gp'
+              have key : ∀ {A B C : List (Item Keylog.Key)} {i₁ i₂ i₃ i₄ : Nat → Pipeline.Info},
+                  Zip (Alike i₁ i₂) A C → Zip (Alike i₃ i₄) B C →
+                  (∀ p, Item.frame p ∈ A → p.l4 ≠ .udp) → ∀ q, Item.frame q ∈ B → q.l4 ≠ .udp := by
+                intro A B C i₁ i₂ i₃ i₄ zA
+                induction zA generalizing B with
+                | nil => intro zB _ q hq; cases zB; simp at hq
+                | @cons a c' as cs hac _ ihz =>
+                  intro zB hA q hq
+                  cases zB with
+                  | @cons b _ bs _ hbc zbs =>
+                    simp only [List.mem_cons] at hq
+                    rcases hq with rfl | hq
+                    · cases c' with
+                      | dsb k => exact absurd hbc (by simp [Alike])
+                      | frame r =>
+                        cases a with
+                        | dsb k => exact absurd hac (by simp [Alike])
+                        | frame pa =>
+                          have e1 : r = { pa with tag := r.tag } := hac.1
+                          have e2 : r = { q with tag := r.tag } := hbc.1
+                          have : q.l4 = pa.l4 := by
+                            have := congrArg Pkt.l4 (e1.symm.trans e2); simpa using this.symm
+                          rw [this]; exact hA pa (by simp)
+                    · exact ihz zbs (fun p hp => hA p (by simp [hp])) q hq
+              have hk₁ : ∀ p, Item.frame p ∈ keptOf isPkt its₁ X₁ → p.l4 ≠ .udp :=
+                fun p hp => hu₁ p (keptOf_sub isPkt its₁ X₁ _ hp)
+              have hf₂ := (go_split args.checksumTest its₂ hnm₂ 0 X₂ IS₂ h₂).1
+              intro q hq
+              have hq' : q ∈ framesOf X₂ := List.mem_filterMap.mpr ⟨_, hq, rfl⟩
+              rw [← hf₂] at hq'
+              obtain ⟨it, hit, hfo⟩ := List.mem_filterMap.mp hq'
+              cases it with
+              | dsb k => cases hfo
+              | frame q' =>
+                simp only [Lemmas.Export.frameOf?, Option.some.injEq] at hfo
+                subst hfo
+                exact key z₁ z₂ hk₁ q' hit
+            rw [framesFrom_explicit mask H P _ freshState args _ X₁ o ho,
+              framesFrom_explicit mask H P _ freshState args _ X₂ o ho,
+              tlsFrames_blocks_anywhere H P o args.checksumTest _ _ its₁ its₂ hpk hnm hnm₂ X₁ X₂ IS₁ IS₂ h₁ h₂ hv]
+            simp only [quicFrames, quicView_no_udp o X₁ hu₁, quicView_no_udp o X₂ hu₂]
+            rfl
+
 end C09Anywhere
 
 -- ====================================================================== 5. C11 at the level of the files
